@@ -14,6 +14,34 @@ CHECKS = {
    technique='Coq proof (induction over blocks + lia) on a Gallina model, differential correspondence against the C',
    design='4/C07'),
 }
+CHECKS['C13'] = dict(
+   text='Coq theorems (all login-reply byte strings, all interface names, either outcome of system()) about a Gallina model of the '
+        'sscanf format, inet_pton/inet_addr validation and command construction of handshake_login/tun_setip/tun_setmtu: every string '
+        'handed to system() is the fixed ifconfig template with strict dotted quads / an mtu in 201..1500 in the peer positions, no '
+        'shell metacharacter comes from the reply. Format strings, call order and which arguments are validated are re-read from '
+        'the source each run; the model runs against the real handshake_login (client.c TU, wrapped system()).',
+   note='Trusts: modelled glibc behaviour of sscanf %64[^-]/%d, inet_pton, inet_addr, inet_ntoa, snprintf (differentially tested '
+        'against the libc in the sandbox, not proved); system() return value is a parameter; LINUX branch only; Coq kernel; translator; extraction; gcc.',
+   technique='Coq proof on a Gallina model of parsing/validation/command construction, differential correspondence against the real client code',
+   design='4/C13')
+CHECKS['C17'] = dict(
+   text='Coq theorems for all strings: check_topdomain accepts exactly the declaratively specified domains (3..128 chars, label '
+        'syntax, optional leading wildcard); query_datalen returns n exactly when the name splits at a label boundary into n data chars '
+        'and a case-insensitive (wildcard-aware) match of the domain, n unique, None exactly when no split matches. Limits are re-read '
+        'from the source; model tied to common.c by exhaustive small-string and random long-name correspondence plus an independent reference matcher.',
+   note='Trusts: C-locale tolower/isdigit (no setlocale in the source); the dispatch in iodined.c on the result is read, not modelled; '
+        'Coq kernel; translator; extraction; gcc.',
+   technique='Coq proof (induction on reversed strings / label lists), differential correspondence, independent reference matcher',
+   design='4/C17')
+CHECKS['C20'] = dict(
+   text='Coq theorems over arbitrary sequences of forwarded queries: the ring equals the last 16 puts (refinement), a reply for an id '
+        'distinct among the last 16 goes to exactly that asker, a lookup only ever returns a remembered asker or the never-written zero '
+        'slot, the forwarded datagram parses to the same id/name/type and replies are relayed byte-identical. Ring size re-read from the '
+        'source; tied to fw_query.c and forward_query/tunnel_bind (iodined.c TU) by exhaustive bounded-depth and random long sequences.',
+   note='Trusts: sendto() with address length 0 reaches nobody (OS behaviour); IPv4 askers (an IPv6 asker is mis-addressed by forward_query: '
+        'recorded observation, outside the check); Coq kernel; translator; extraction; gcc.',
+   technique='Coq proof (ring invariant by induction, refinement to last-16-puts spec), differential correspondence',
+   design='4/C20')
 NOT_YET = {}
 
 def main():
